@@ -40,14 +40,44 @@ func init() {
 		return "ok " + hx(b)
 	}
 	implOps["hdr.parse"] = func(a []string) string {
-		h, rest, err := header.Parse(mustUnhx(a[0]))
+		in := mustUnhx(a[0])
+		h, rest, err := header.Parse(in)
+		// an independent reader of the documented layout decides what the answer has to be
+		wantErr, wantRest := "", []byte(nil)
+		switch {
+		case len(in) < 24:
+			wantErr = "too-short"
+		case in[16] != 0:
+			wantErr = "bad-version"
+		case len(in) < 24+8*int(binary.BigEndian.Uint16(in[22:24])):
+			wantErr = "too-short"
+		default:
+			wantRest = in[24+8*int(binary.BigEndian.Uint16(in[22:24])):]
+		}
 		if err != nil {
+			if wantErr == "" {
+				return "FAIL well-formed-value-rejected " + hdrErrClass(err)
+			}
 			return "err " + hdrErrClass(err)
+		}
+		if wantErr != "" {
+			return "FAIL malformed-value-accepted should-be-" + wantErr
+		}
+		if !bytes.Equal(rest, wantRest) {
+			return fmt.Sprintf("FAIL application-value-misread got-%d-bytes want-%d-bytes extension-count=%d", len(rest), len(wantRest), binary.BigEndian.Uint16(in[22:24]))
 		}
 		return fmt.Sprintf("ok %d %d %d %d %d %s %s", uint64(h.Timestamp), uint64(h.TxnID), h.Version, uint8(h.Flags), h.NumExtra, hx(h.Extra), hx(rest))
 	}
 	implOps["hdr.skip"] = func(a []string) string {
-		rest, err := header.Skip(mustUnhx(a[0]))
+		in := mustUnhx(a[0])
+		rest, err := header.Skip(in)
+		if err == nil && len(in) >= 24 && in[16] == 0 {
+			if n := 24 + 8*int(binary.BigEndian.Uint16(in[22:24])); len(in) < n {
+				return "FAIL malformed-value-accepted should-be-too-short"
+			} else if !bytes.Equal(rest, in[n:]) {
+				return fmt.Sprintf("FAIL application-value-misread got-%d-bytes want-%d-bytes", len(rest), len(in)-n)
+			}
+		}
 		if err != nil {
 			return "err " + hdrErrClass(err)
 		}
